@@ -89,6 +89,8 @@ type Exec struct {
 	recovering    []*frame
 	Calls         []string // log of notable call events on this path (mint/burn/send sites etc.)
 	rowInvDone    map[string]bool
+	topTags       map[string]bool
+	rowGuard      *smt.Term
 	opaqueSeen    map[string]bool     // lazy collections read opaquely during the current spec evaluation
 	opaqueRedo    map[string][]func() // assumptions to re-evaluate when a collection is revealed
 	forceMemo     map[*LazyV]Val
